@@ -168,6 +168,9 @@ def run(repo: Repo, rep: Report, tier: str) -> None:
 
     # ---------------------------------------------------------------- R9.4 / R9.5 diff completeness
     sd = repo.func("generator.client_generator:ClientGenerator._show_diffs")
+    from sa.flatten import flatten as _fl94
+
+    sd = _fl94(sd)  # the per-file comparison may live in a helper of the class
     cfg = CFG(sd.node)
     SL = Locals(sd.node)
     sparams = [p for p in SL.params if p != "self"]
